@@ -48,7 +48,10 @@ impl Vm {
         // a definition inside it defines a global.
         let forms = self.splice_body(&Cell::new_list(vec![expr.clone()]))?;
         if forms.is_empty() {
-            self.compile(&mut lambda, true, expr)?;
+            // nothing but empty begins: there is nothing to do
+            lambda.emit(OpCode::MovImmediate);
+            lambda.emit(VCell::Void);
+            lambda.emit(VCell::Acc);
         }
         for (idx, form) in forms.iter().enumerate() {
             self.compile(&mut lambda, idx + 1 == forms.len(), form)?;
@@ -129,7 +132,8 @@ impl Vm {
                 }
             }
             match &form {
-                Cell::Pair(car, cdr) if car.is_symbol_str("begin") && cdr.is_list() => {
+                // (begin) with no forms stands for no forms at all
+                Cell::Pair(car, cdr) if car.is_symbol_str("begin") && (cdr.is_list() || cdr.is_nil()) => {
                     pending.extend(cdr.iter().cloned().collect::<Vec<_>>().into_iter().rev());
                 }
                 _ => forms.push(form),
